@@ -30,17 +30,15 @@ def stride_candidates(rnd, es):
     c.append(F.chain_strides(rnd, es))
     return c
 
-def check(prop, tier, seed, replay=None):
-    rep = C.Report(prop, tier, seed); audit = C.proof_audit(prop); rnd = random.Random(seed); thorough = tier == 'thorough'
-    rep.cov['rule'] = ('ordered pairs of mapping types: 9 layouts (left, right, stride, left/right_padded with dynamic, 2, 4 padding) x 6 index-type pairs x rank 0-3, all-dynamic extents; '
-                       'extents in {0..3}, strides canonical for every target layout and generic chains, paddings none/1/2/extent; every multi-index of the small index space evaluated on source and target; '
-                       'comparison (== and !=) for every pair with a direct operator==; conversions are executed only where the Lean predicate ConvPre holds; non-trivial = rank>=1 and non-empty index space')
+def gen(seed, tier, insts, replay=None):
+    """conversion lines and comparison lines (with their meta data) for a list of instantiations"""
+    rnd = random.Random(seed); thorough = tier == 'thorough'
     conv = []; eqs = []
     if replay:
         (conv if replay['fam'] == 'conv' else eqs).append(replay['line'] if replay['fam'] == 'conv' else (replay['line'], replay['meta']))
         conv = [(l, None) for l in conv]
     else:
-        for i in G.instances():
+        for i in insts:
             sk, ssp, t, dk, dsp, u, r = i
             exts = list(itertools.product(range(0, 4), repeat=r)); n = 3 if not thorough else 12
             for es in (exts if len(exts) <= n else rnd.sample(exts, n)):
@@ -74,6 +72,14 @@ def check(prop, tier, seed, replay=None):
                     l2 = G.line('mapeq', i) + ' ext=%s' % C.fmt(es) + (' str=%s' % C.fmt(v['str']) if 'str' in v else '') + (' pv=%d' % v['pv'] if 'pv' in v else '') + \
                          ' ext2=%s' % C.fmt(b['ext2']) + (' str2=%s' % C.fmt(b['str2']) if 'str2' in b else '') + (' pv2=%d' % b['pv2'] if 'pv2' in b else '')
                     eqs.append((l2, dict(inst=list(i), a=dict(ext=es, **v), b=b)))
+    return conv, eqs
+
+def check(prop, tier, seed, replay=None):
+    rep = C.Report(prop, tier, seed); audit = C.proof_audit(prop); rnd = random.Random(seed); thorough = tier == 'thorough'
+    rep.cov['rule'] = ('ordered pairs of mapping types: 9 layouts (left, right, stride, left/right_padded with dynamic, 2, 4 padding) x 6 index-type pairs x rank 0-3, all-dynamic extents; '
+                       'extents in {0..3}, strides canonical for every target layout and generic chains, paddings none/1/2/extent; every multi-index of the small index space evaluated on source and target; '
+                       'comparison (== and !=) for every pair with a direct operator==; conversions are executed only where the Lean predicate ConvPre holds; non-trivial = rank>=1 and non-empty index space')
+    conv, eqs = gen(seed, tier, G.instances(), replay)
     pre = [x == 'ok 1' for x in C.driver([l + ' pre' for l, _ in conv])]
     conv = [c for c, p in zip(conv, pre) if p]
     rep.notes['conversions_with_precondition'] = len(conv); rep.notes['comparisons'] = len(eqs)
